@@ -160,12 +160,30 @@ def run_cases(ck: Check, n: int):
         reqs.append(req)
         expect.append((want, case, stream))
 
+    def build_emulsion(drops):
+        """the same collection, sometimes reached through a history that leaves a STALE declared layout behind
+        (created for droplets of another class / layout, emptied, refilled)"""
+        if not drops or rng.random() > 0.3:
+            return Emulsion(drops)
+        for _ in range(20):
+            other = gen_collection(rng, n=rng.choice([1, 2]), uniform=True)
+            if other and other[0].data.dtype != drops[0].data.dtype:
+                break
+        else:
+            return Emulsion(drops)
+        e = Emulsion(other) if rng.random() < 0.5 else Emulsion.empty(other[0])
+        e.clear()
+        for d in drops:
+            e.append(d)
+        ck.count("emulsion.stale_declared_layout")
+        return e
+
     try:
         for i in range(n):
             kind = rng.choice(["emulsion", "emulsion", "track", "timecourse", "tracklist"])
             if kind == "emulsion":
                 drops = gen_collection(rng)
-                obj = Emulsion(drops)
+                obj = build_emulsion(drops)
                 case = {"kind": kind, "droplets": [str(d) for d in drops][:6], "n": len(drops)}
                 sig = {"kind": kind}
                 ck.case((kind, tuple(drop_token(d) for d in drops)), nontrivial=len(drops) > 0)
@@ -211,7 +229,7 @@ def run_cases(ck: Check, n: int):
                 nfr = rng.choice([0, 1, 2, 5, 12])
                 members = [gen_collection(rng, n=rng.choice([0, 0, 1, 2, 3]), uniform=rng.random() < 0.9) for _ in range(nfr)]
                 times = gen_times(rng, nfr)
-                obj = EmulsionTimeCourse([Emulsion(m) for m in members], times)
+                obj = EmulsionTimeCourse([build_emulsion(m) for m in members], times)
                 case = {"kind": kind, "members": [len(m) for m in members], "times": [float(t) for t in times]}
                 sig = {"kind": kind}
                 ck.case((kind, tuple(tuple(drop_token(d) for d in m) for m in members), tuple(times)), nontrivial=nfr > 0)
